@@ -20,6 +20,13 @@ static bool load_expect(const std::string & path, Expect & x)
   while (std::getline(f, l)) if (l.compare(0, 2, "L ") == 0) x.lines.push_back(l.substr(2));
   return (int)x.lines.size() == x.n + 1;
 }
+static bool load_expect_header(const std::string & path, Expect & x)
+{
+  std::ifstream f(path); if (!f) return false; std::string l;
+  std::getline(f, l); std::istringstream in(l); std::string a, b, c; in >> a >> b >> c >> x.n; x.qbb = strtod(a.c_str(), nullptr); x.emin = strtod(b.c_str(), nullptr); x.estep = strtod(c.c_str(), nullptr);
+  return x.n >= 2;
+}
+static void emit(const struct Out & o);
 static int nines_of(double v) { int k = 0; double b = 0.9; while (k < 16 && v >= b) { k++; b = 1.0 - std::pow(10.0, -(k + 1)); } return k; }
 
 struct Out { bool ok = true; std::string cls, msg; long pairs = 0; int max_caret = 0; bool has_one = false; bool slow_rejection = false; };
@@ -30,6 +37,27 @@ int main(int argc, char ** argv)
   Args a(argc, argv);
   static std::ofstream devnull("/dev/null"); std::cerr.rdbuf(devnull.rdbuf()); std::clog.rdbuf(devnull.rdbuf());
   Expect x; Out o;
+  if (a.has("pdfonly")) {
+    // data set whose end point lies inside the sampled triangle (zeros beyond it): only tab_pdf.data exists, only the rejection method applies
+    if (!load_expect_header(a.s("expect"), x)) { printf("{\"ok\":false,\"cls\":\"harness\",\"msg\":\"cannot read expect file\"}\n"); return 2; }
+    setenv("BXDECAY0_DBD_GA_DATA_DIR", a.s("datadir").c_str(), 1);
+    uint64_t seed = a.i("seed", 1); long nshots = a.i("pairs", 10000);
+    bxdecay0::dbd_gA h; h.set_nuclide("Test"); h.set_process(bxdecay0::dbd_gA::PROCESS_G0); h.set_shooting(bxdecay0::dbd_gA::SHOOTING_REJECTION);
+    try { h.initialize(); } catch (std::exception & e) { fail(o, "load-throws", std::string("p.d.f. file written by the encoder (end point inside the table, zeros beyond it) is refused: ") + e.what()); }
+    long budget = 3000000;
+    for (long k = 0; k < nshots && o.ok; k++) {
+      Tape t; t.seed = mix(seed, 11000 + k); TapeRandom ra(t, 0, 20000), rb(t, 0, 20000); double e1, e2, c12; bxdecay0::event ev;
+      try { h.shoot_e1_e2(ra, e1, e2); h.shoot_cos_theta(ra, e1, e2, c12); h.shoot(rb, ev); } catch (TapeOverrun &) { o.slow_rejection = true; break; }
+      budget -= (long)ra.pos; if (budget < 0) { if (k < 100) o.slow_rejection = true; break; }
+      if (!(e1 >= 0 && e2 >= 0) || e1 + e2 > x.qbb * (1 + 1e-12)) { fail(o, "rejection-domain", "rejection method: e1=" + jnum(e1) + " e2=" + jnum(e2) + " sum " + jnum(e1 + e2) + " above the data set's maximum " + jnum(x.qbb)); break; }
+      const auto & ps = ev.get_particles();
+      if (ps.size() != 2 || !ps[0].is_electron() || !ps[1].is_electron()) { fail(o, "event-shape", "shoot() does not yield exactly two electrons"); break; }
+      const double m = 0.51099906; auto kin = [&](const bxdecay0::particle & p) { double pp = p.get_p(); return std::sqrt(pp * pp + m * m) - m; };
+      if (std::fabs(kin(ps[0]) - e1) > 1e-12 + 1e-9 * e1 || std::fabs(kin(ps[1]) - e2) > 1e-12 + 1e-9 * e2) { fail(o, "event-energies", "event kinetic energies differ from the sampled pair"); break; }
+      o.pairs++;
+    }
+    emit(o); return o.ok ? 0 : 1;
+  }
   if (!load_expect(a.s("expect"), x)) { printf("{\"ok\":false,\"cls\":\"harness\",\"msg\":\"cannot read expect file\"}\n"); return 2; }
   setenv("BXDECAY0_DBD_GA_DATA_DIR", a.s("datadir").c_str(), 1);
   uint64_t seed = a.i("seed", 1); long npairs = a.i("pairs", 10000);
@@ -127,6 +155,10 @@ int main(int argc, char ** argv)
       }
     }
   }
-  printf("{\"ok\":%s,\"cls\":%s,\"msg\":%s,\"pairs\":%ld,\"max_caret\":%d,\"has_one\":%s,\"slow_rejection\":%s}\n", o.ok ? "true" : "false", jstr(o.cls).c_str(), jstr(o.msg).c_str(), o.pairs, o.max_caret, o.has_one ? "true" : "false", o.slow_rejection ? "true" : "false");
+  emit(o);
   return o.ok ? 0 : 1;
+}
+static void emit(const Out & o)
+{
+  printf("{\"ok\":%s,\"cls\":%s,\"msg\":%s,\"pairs\":%ld,\"max_caret\":%d,\"has_one\":%s,\"slow_rejection\":%s}\n", o.ok ? "true" : "false", jstr(o.cls).c_str(), jstr(o.msg).c_str(), o.pairs, o.max_caret, o.has_one ? "true" : "false", o.slow_rejection ? "true" : "false");
 }
